@@ -82,6 +82,36 @@ pub fn run(tier: Tier) -> i32 {
     let relevant_configs = AtomicU64::new(0);
     let boards = AtomicU64::new(0);
 
+    // What is touched FIRST in a process is a dimension of its own (tables may be filled in on first
+    // use): this process starts with the operation named by IVK_C04_FIRST (children of the main run,
+    // see below); without it, with the enumeration itself.
+    let first = std::env::var("IVK_C04_FIRST").unwrap_or_default();
+    match first.as_str() {
+        "bishop_a8" => {
+            let _ = inkayaku_board::verif::in_use::slider(false, 0, 0);
+        }
+        "bishop_h1" => {
+            let _ = inkayaku_board::verif::in_use::slider(false, 63, u64::MAX);
+        }
+        "rook_e4" => {
+            let _ = inkayaku_board::verif::in_use::slider(true, 36, 0);
+        }
+        "knight_then_bishop" => {
+            let _ = inkayaku_board::verif::in_use::leaper(1, 10);
+            let _ = inkayaku_board::verif::in_use::slider(false, 27, 1 << 9);
+        }
+        "movegen_bishop_only" => {
+            if let Ok(b) = inkayaku_board::Bitboard::from_fen_string("4k3/8/8/8/3B4/8/8/4K3 w - - 0 1") {
+                let _ = b.generate_pseudo_legal_moves();
+            }
+        }
+        "movegen_black_rook_only" => {
+            if let Ok(b) = inkayaku_board::Bitboard::from_fen_string("4k3/8/8/8/3r4/8/8/4K3 b - - 0 1") {
+                let _ = b.generate_pseudo_legal_moves();
+            }
+        }
+        _ => {}
+    }
     // one work item per (piece kind, square)
     let items: Vec<(bool, u8)> = [true, false].iter().flat_map(|&rk| (0..64u8).map(move |s| (rk, s))).collect();
     par_map(&items, |&(rook, sq)| {
@@ -208,7 +238,32 @@ pub fn run(tier: Tier) -> i32 {
         }
     }
     let _ = tier;
+    // the main run repeats the whole enumeration in fresh processes that start with a different
+    // first operation each
+    let mut children: Vec<serde_json::Value> = Vec::new();
+    if first.is_empty() {
+        if let Ok(exe) = std::env::current_exe() {
+            for order in ["bishop_a8", "bishop_h1", "rook_e4", "knight_then_bishop", "movegen_bishop_only", "movegen_black_rook_only"] {
+                let out = std::process::Command::new(&exe).args(["C04", "quick"]).env("IVK_C04_FIRST", order).env("IVK_NO_EVIDENCE", "1").env("IVK_REPLAY_MODE", "1").output();
+                match out {
+                    Ok(o) => {
+                        let text = String::from_utf8_lossy(&o.stdout).to_string();
+                        let code = o.status.code().unwrap_or(-1);
+                        let sigs: Vec<String> = text.lines().filter(|l| l.starts_with("VIOLATION")).map(|l| l.split('[').nth(1).unwrap_or("").trim_end_matches(']').to_string()).collect();
+                        children.push(json!({"first_operation_of_the_process": order, "exit": code, "signatures": sigs}));
+                        if code == 1 {
+                            rep.report(format!("depends_on_what_the_process_touched_first:{}", order), json!({"kind": "first_touch", "first_operation_of_the_process": order, "signatures_in_that_process": sigs}));
+                        } else if code != 0 {
+                            rep.machinery(format!("child process for first operation {} ended with {}: {}", order, code, String::from_utf8_lossy(&o.stderr).chars().take(300).collect::<String>()));
+                        }
+                    }
+                    Err(e) => rep.machinery(format!("cannot start child process: {}", e)),
+                }
+            }
+        }
+    }
     let mut cov = Coverage::new();
+    cov.set("fresh_processes_with_a_different_first_operation", json!(children));
     cov.states = configs.load(Ordering::Relaxed) + leaper_entries;
     cov.transitions = lookups.load(Ordering::Relaxed) + leaper_entries + boards.load(Ordering::Relaxed);
     cov.traces_validated = cov.transitions;
@@ -231,7 +286,16 @@ pub fn run(_tier: Tier) -> i32 {
 }
 
 pub fn replay(case: &serde_json::Value) -> i32 {
-    // the space is small: a replay simply re-runs the complete enumeration
-    let _ = case;
+    // the space is small: a replay simply re-runs the complete enumeration — in a process that starts
+    // with the recorded first operation, if the case has one
+    if let Some(order) = case["first_operation_of_the_process"].as_str() {
+        if std::env::var("IVK_C04_FIRST").is_err() {
+            if let Ok(exe) = std::env::current_exe() {
+                if let Ok(st) = std::process::Command::new(exe).args(["C04", "quick"]).env("IVK_C04_FIRST", order).env("IVK_NO_EVIDENCE", "1").env("IVK_REPLAY_MODE", "1").status() {
+                    return st.code().unwrap_or(2);
+                }
+            }
+        }
+    }
     run(Tier::Quick)
 }
